@@ -142,7 +142,7 @@ func (w *c18World) peer(addr, subnet string, n int) *Peer {
 // subnet limit disabled/1/2, each peer sends 1..2 RPCs, handlers block until
 // released.
 //
-//verif:harness prop=C18 tier=quick replay=interp go=sched preempt=1 require=quiesced,rejected-by-subnet,back-pressure bounds="2 peers × 1..2 RPCs, MaxInflightRPCs 1..2, MaxInflightRPCsPerSubnet 0..2, same or different subnet, handlers held until released; ≤1 preemption"
+//verif:harness prop=C18 tier=quick replay=interp go=sched preempt=2 require=quiesced,rejected-by-subnet,back-pressure bounds="2 peers × 1..2 RPCs, MaxInflightRPCs 1..2, MaxInflightRPCsPerSubnet 0..2, same or different subnet, handlers held until released; ≤2 delays"
 func VerifH_C18_inflight() {
 	perPeer := vapi.Int("per_peer", 1, 2)
 	perSubnet := vapi.Int("per_subnet", 0, 2)
@@ -189,7 +189,7 @@ func VerifH_C18_inflight() {
 
 // VerifH_C18_shutdown: Stop at any moment relative to the in-flight work.
 //
-//verif:harness prop=C18 tier=quick replay=interp go=sched preempt=2 require=stopped bounds="1 peer × 1..2 RPCs, limits 1..2 / 0..1, Stop concurrent with the peer loop and its handlers; a peer added after Stop; ≤2 preemptions"
+//verif:harness prop=C18 tier=quick replay=interp go=sched preempt=3 require=stopped bounds="1 peer × 1..2 RPCs, limits 1..2 / 0..1, Stop concurrent with the peer loop and its handlers; a peer added after Stop; ≤3 delays"
 func VerifH_C18_shutdown() {
 	perPeer := vapi.Int("per_peer", 1, 2)
 	perSubnet := vapi.Int("per_subnet", 0, 1)
